@@ -471,7 +471,24 @@ pub fn apply_to_log(log: &mut MultiRecordLog, key: u64, k: usize, op: &Op) -> Ou
                 });
                 log.append_records(q, *pos, bufs)
             } else {
-                log.append_records(q, *pos, payloads.iter().map(|p| &p[..]))
+                // the batch is handed over as iterators of three shapes (by op index): exact
+                // size, filtered (size_hint (0, Some(n + decoys))) and generator (size_hint
+                // (0, None)): an application's batch is often the filtered kind
+                match k % 3 {
+                    0 => log.append_records(q, *pos, payloads.iter().map(|p| &p[..])),
+                    1 => {
+                        let mut slots: Vec<Option<&[u8]>> = vec![None];
+                        for p in &payloads {
+                            slots.push(Some(&p[..]));
+                            slots.push(None);
+                        }
+                        log.append_records(q, *pos, slots.into_iter().filter_map(|x| x))
+                    }
+                    _ => {
+                        let mut it = payloads.iter();
+                        log.append_records(q, *pos, std::iter::from_fn(move || it.next().map(|p| &p[..])))
+                    }
+                }
             };
             match res {
                 Ok(o) => Outcome::Appended { last: o.last_position, bytes: o.wal_bytes_written },
